@@ -37,17 +37,19 @@ VARIABLES T,          \* the configured timeout (chosen in Init)
           errs,       \* exceptions escaping loop callbacks
           fnEndAt, fnEnd, cancelAt,   \* ghosts: when/how the function ended, when the caller was cancelled
           tie,        \* ghost: the function's end and the deadline fell into the same instant
+          hold,       \* the environment withholds the caller's wake-up (to act between "future resolved" and "caller resumed")
+          ccp,        \* the caller task was cancelled while its future was already resolved (delivered at its wake-up)
           obs
 
 vars == <<T, obey, now, task, gate, creq, cpend, seen, fut, timer, caller, gotAt, rdy, errs,
-          fnEndAt, fnEnd, cancelAt, tie, obs>>
+          fnEndAt, fnEnd, cancelAt, tie, hold, ccp, obs>>
 scen == <<T, obey>>
 
 Init == /\ T \in 1..MaxDeadline /\ obey \in BOOLEAN
         /\ now = 0 /\ task = "running" /\ gate = "closed" /\ creq = 0 /\ cpend = FALSE /\ seen = 0
         /\ fut = "pending" /\ timer = "armed" /\ caller = "waiting" /\ gotAt = 0
         /\ rdy = {} /\ errs = 0
-        /\ fnEndAt = Never /\ fnEnd = "none" /\ cancelAt = Never /\ tie = FALSE
+        /\ fnEndAt = Never /\ fnEnd = "none" /\ cancelAt = Never /\ tie = FALSE /\ hold = FALSE /\ ccp = FALSE
         /\ obs = [caller |-> "waiting", at |-> 0, fn |-> "running", seen |-> 0, timers |-> 1, errs |-> 0]
 
 FutCallbacks == {"on_result", "caller_wake"}
@@ -78,7 +80,7 @@ FnStep ==
             /\ rdy' = (rdy \ {"fn"}) \cup {"on_completion"}
             /\ fnEndAt' = now /\ fnEnd' = gate
             /\ UNCHANGED <<seen, cpend>>
-  /\ UNCHANGED <<scen, now, creq, fut, timer, caller, gotAt, errs, cancelAt, tie, obs>>
+  /\ UNCHANGED <<scen, now, creq, fut, timer, caller, gotAt, errs, cancelAt, tie, hold, ccp, obs>>
 
 (* internal: the deadline timer fires *)
 TimerFire ==
@@ -86,7 +88,7 @@ TimerFire ==
   /\ timer' = "fired"
   /\ IF fut = "pending" THEN fut' = "timeout" /\ rdy' = rdy \cup FutCallbacks
                         ELSE UNCHANGED <<fut, rdy>>
-  /\ UNCHANGED <<scen, now, task, gate, creq, cpend, seen, caller, gotAt, errs, fnEndAt, fnEnd, cancelAt, tie, obs>>
+  /\ UNCHANGED <<scen, now, task, gate, creq, cpend, seen, caller, gotAt, errs, fnEndAt, fnEnd, cancelAt, tie, hold, ccp, obs>>
 
 (* internal: done-callback of the inner task *)
 OnCompletion ==
@@ -98,7 +100,7 @@ OnCompletion ==
          THEN \* the callback itself raises: future stays pending, timer already cancelled
               /\ rdy' = rdy \ {"on_completion"} /\ errs' = errs + 1 /\ UNCHANGED fut
          ELSE /\ fut' = task /\ rdy' = (rdy \ {"on_completion"}) \cup FutCallbacks /\ UNCHANGED errs
-  /\ UNCHANGED <<scen, now, task, gate, creq, cpend, seen, caller, gotAt, fnEndAt, fnEnd, cancelAt, tie, obs>>
+  /\ UNCHANGED <<scen, now, task, gate, creq, cpend, seen, caller, gotAt, fnEndAt, fnEnd, cancelAt, tie, hold, ccp, obs>>
 
 (* internal: done-callback of the result future - the inner task must not keep running *)
 OnResult ==
@@ -106,17 +108,20 @@ OnResult ==
   /\ IF task = "running" /\ Bug # "no_task_cancel"
        THEN /\ creq' = creq + 1 /\ cpend' = TRUE /\ rdy' = (rdy \ {"on_result"}) \cup {"fn"}
        ELSE /\ rdy' = rdy \ {"on_result"} /\ UNCHANGED <<creq, cpend>>
-  /\ UNCHANGED <<scen, now, task, gate, seen, fut, timer, caller, gotAt, errs, fnEndAt, fnEnd, cancelAt, tie, obs>>
+  /\ UNCHANGED <<scen, now, task, gate, seen, fut, timer, caller, gotAt, errs, fnEndAt, fnEnd, cancelAt, tie, hold, ccp, obs>>
 
 (* internal: the caller resumes with whatever the future holds *)
 CallerWake ==
-  /\ "caller_wake" \in rdy
+  /\ "caller_wake" \in rdy /\ ~hold
   /\ rdy' = rdy \ {"caller_wake"}
-  /\ IF caller = "waiting" THEN caller' = fut /\ gotAt' = now ELSE UNCHANGED <<caller, gotAt>>
-  /\ UNCHANGED <<scen, now, task, gate, creq, cpend, seen, fut, timer, errs, fnEndAt, fnEnd, cancelAt, tie, obs>>
+  /\ IF caller = "waiting"
+       THEN /\ caller' = IF ccp /\ Bug # "late_cancel_swallowed" THEN "cancelled" ELSE fut   \* a pending cancellation wins
+            /\ gotAt' = now
+       ELSE UNCHANGED <<caller, gotAt>>
+  /\ UNCHANGED <<scen, now, task, gate, creq, cpend, seen, fut, timer, errs, fnEndAt, fnEnd, cancelAt, tie, hold, ccp, obs>>
 
 Internal == FnStep \/ TimerFire \/ OnCompletion \/ OnResult \/ CallerWake
-Quiet == rdy = {} /\ ~TimerDue
+Quiet == (rdy \ (IF hold THEN {"caller_wake"} ELSE {})) = {} /\ ~TimerDue
 
 Cur == [caller |-> caller, at |-> gotAt, fn |-> task, seen |-> seen,
         timers |-> IF timer = "armed" THEN 1 ELSE 0, errs |-> errs]
@@ -127,37 +132,51 @@ Rest == Quiet /\ obs = Cur      \* at rest and observed
 Deliver(o) == /\ task = "running" /\ gate = "closed" /\ gate' = o /\ rdy' = rdy \cup {"fn"}
 
 (* time advances by one; the function may finish in that very instant *)
-Tick(o) ==
-  /\ Rest /\ now < MaxT /\ now' = now + 1
+Tick(o, h) ==
+  /\ Rest /\ ~hold /\ hold' = h /\ ccp' = ccp /\ now < MaxT /\ now' = now + 1
   /\ IF o = "none" THEN UNCHANGED <<gate, rdy>> ELSE Deliver(o)
   /\ tie' = (tie \/ (o # "none" /\ now' = T /\ timer = "armed"))
   /\ UNCHANGED <<scen, task, creq, cpend, seen, fut, timer, caller, gotAt, errs, fnEndAt, fnEnd, cancelAt>>
   /\ obs' = obs
 
 (* the function finishes now, strictly between deadlines *)
-FnFinish(o) ==
-  /\ Rest /\ Deliver(o)
+FnFinish(o, h) ==
+  /\ Rest /\ ~hold /\ hold' = h /\ ccp' = ccp /\ Deliver(o)
   /\ UNCHANGED <<scen, now, task, creq, cpend, seen, fut, timer, caller, gotAt, errs, fnEndAt, fnEnd, cancelAt, tie>>
   /\ obs' = obs
 
 (* the caller task is cancelled while awaiting the result *)
 CallerCancel ==
   /\ Rest /\ caller = "waiting" /\ cancelAt = Never
-  /\ cancelAt' = now
-  /\ fut' = "cancelled" /\ rdy' = rdy \cup FutCallbacks
+  /\ cancelAt' = now /\ hold' = FALSE
+  /\ IF "caller_wake" \in rdy
+       THEN \* the result future is already resolved, the caller has not resumed yet: the request is
+            \* delivered when it does - and it must win over the result
+            /\ ccp' = TRUE /\ UNCHANGED <<fut, rdy>>
+       ELSE /\ ccp' = ccp /\ fut' = "cancelled" /\ rdy' = rdy \cup FutCallbacks
   /\ UNCHANGED <<scen, now, task, gate, creq, cpend, seen, timer, caller, gotAt, errs, fnEndAt, fnEnd, tie>>
   /\ obs' = obs
 
-Controlled == (\E o \in Outcomes \cup {"none"} : Tick(o)) \/ (\E o \in Outcomes : FnFinish(o)) \/ CallerCancel
+(* the environment lets the withheld caller resume *)
+Release ==
+  /\ Rest /\ hold /\ hold' = FALSE
+  /\ UNCHANGED <<scen, now, task, gate, creq, cpend, seen, fut, timer, caller, gotAt, rdy, errs, fnEndAt, fnEnd,
+                 cancelAt, tie, ccp>>
+  /\ obs' = obs
+
+Controlled == \/ \E o \in Outcomes \cup {"none"}, h \in BOOLEAN : Tick(o, h)
+              \/ \E o \in Outcomes, h \in BOOLEAN : FnFinish(o, h)
+              \/ CallerCancel \/ Release
 
 (* obs is refreshed whenever the system comes to rest *)
 Settle == /\ Quiet /\ obs # Cur /\ obs' = Cur
           /\ UNCHANGED <<T, obey, now, task, gate, creq, cpend, seen, fut, timer, caller, gotAt, rdy, errs,
-                         fnEndAt, fnEnd, cancelAt, tie>>
+                         fnEndAt, fnEnd, cancelAt, tie, hold, ccp>>
 
 Next == Internal \/ Settle \/ Controlled
-TickNone == Tick("none")
-Spec == Init /\ [][Next]_vars /\ WF_vars(Internal) /\ WF_vars(Settle) /\ WF_vars(TickNone)
+TickNone == Tick("none", FALSE)
+ReleaseHeld == Release
+Spec == Init /\ [][Next]_vars /\ WF_vars(Internal) /\ WF_vars(Settle) /\ WF_vars(TickNone) /\ WF_vars(ReleaseHeld)
 
 -----------------------------------------------------------------------------
 TypeOK == /\ task \in {"running", "val", "exc", "base", "cancelled"}
@@ -167,7 +186,7 @@ TypeOK == /\ task \in {"running", "val", "exc", "base", "cancelled"}
           /\ rdy \subseteq {"fn", "on_completion", "on_result", "caller_wake"}
 
 OwnOutcome == IF fnEnd = "selfcancel" THEN "cancelled" ELSE fnEnd
-Done == caller # "waiting" /\ Quiet
+Done == caller # "waiting" /\ Quiet /\ ~hold
 
 (* C16: own result or exception if the function finishes before the deadline, otherwise a
    timeout error raised at the deadline, after which the function has been cancelled *)
